@@ -1485,8 +1485,12 @@ class AstEval:
 
     async def ast_delete(self, arg):
         """Execute del statement."""
-        for arg1 in arg.targets:
-            if isinstance(arg1, ast.Subscript):
+        targets = list(arg.targets)
+        while targets:
+            arg1 = targets.pop(0)
+            if isinstance(arg1, (ast.Tuple, ast.List)):
+                targets[0:0] = arg1.elts
+            elif isinstance(arg1, ast.Subscript):
                 var = await self.aeval(arg1.value)
                 del var[await self.aeval(arg1.slice)]
             elif isinstance(arg1, ast.Name):
@@ -1504,9 +1508,11 @@ class AstEval:
                 else:
                     raise NameError(f"name '{arg1.id}' is not defined")
             elif isinstance(arg1, ast.Attribute):
-                var_name = await self.ast_attribute_collapse(arg1, check_undef=False)
-                if not isinstance(var_name, str):
-                    raise NameError("state name should be 'domain.entity' or 'domain.entity.attr'")
+                var_name = await self.ast_attribute_collapse(arg1)
+                if var_name is None:
+                    # attribute of a python object, rather than a state variable name
+                    delattr(await self.aeval(arg1.value), arg1.attr)
+                    continue
                 State.delete(var_name)
             else:
                 raise NotImplementedError(f"unknown target type {arg1} in del")
